@@ -4,6 +4,7 @@ package nextroute
 
 import (
 	"fmt"
+	"sync"
 	"time"
 )
 
@@ -109,6 +110,7 @@ type stopTimeExpressionImpl struct {
 	name         string
 	index        int
 	defaultValue float64
+	defaultOnce  sync.Once
 }
 
 func (s *stopTimeExpressionImpl) HasNegativeValues() bool {
@@ -144,7 +146,9 @@ func (s *stopTimeExpressionImpl) Value(
 }
 
 func (s *stopTimeExpressionImpl) defaultTimeValue(model Model) float64 {
-	if s.defaultValue < 0 {
+	// The expression is shared by all solutions of a model, the default value
+	// is computed once: concurrent solvers must not race on the cache.
+	s.defaultOnce.Do(func() {
 		if s.defaultTime.Before(model.Epoch()) {
 			panic(
 				fmt.Sprintf(
@@ -156,7 +160,7 @@ func (s *stopTimeExpressionImpl) defaultTimeValue(model Model) float64 {
 			)
 		}
 		s.defaultValue = s.defaultTime.Sub(model.Epoch()).Seconds()
-	}
+	})
 	return s.defaultValue
 }
 
